@@ -12,7 +12,8 @@ Local Open Scope Z_scope.
 
 (* coap_split_path, for every byte string and every output buffer size: never reads outside the
    input ([UOk]), writes [used] <= buflen bytes = the options returned, and every option is a
-   well-formed raw segment of the input decoded once that is neither "." nor ".." *)
+   well-formed raw segment of the input decoded once, of a length an option header can carry,
+   that is neither "." nor ".." *)
 Theorem C16_no_overread_split_path : forall s buflen,
   0 <= buflen -> uri_buf_safe true (uri_raw_path_segs s) buflen (uri_split_path s buflen).
 Proof. exact uri_split_path_safe. Qed.
@@ -109,6 +110,27 @@ Theorem C16_buffer_injective : forall l1 l2,
 Proof. exact uri_buffer_injective. Qed.
 Print Assumptions C16_buffer_injective.
 
+(* every result of coap_split_path / coap_split_query, for any input and any buffer size, is n
+   options the parser reads back from exactly the [used] bytes written *)
+Theorem C16_output_parses_path : forall s buflen,
+  0 <= buflen ->
+  exists vals used,
+    uri_split_path s buflen = UOk (uri_encs vals, used) /\ 0 <= used <= buflen /\
+    used = len (concat (uri_encs vals)) /\
+    Forall (fun v => uri_kind v = 0) vals /\
+    opts_parse (S (length vals)) 0 (concat (uri_encs vals)) = Some (map (fun v => (0, v)) vals, []).
+Proof. exact uri_split_path_parses. Qed.
+Print Assumptions C16_output_parses_path.
+
+Theorem C16_output_parses_query : forall s buflen,
+  0 <= buflen ->
+  exists vals used,
+    uri_split_query s buflen = UOk (uri_encs vals, used) /\ 0 <= used <= buflen /\
+    used = len (concat (uri_encs vals)) /\
+    opts_parse (S (length vals)) 0 (concat (uri_encs vals)) = Some (map (fun v => (0, v)) vals, []).
+Proof. exact uri_split_query_parses. Qed.
+Print Assumptions C16_output_parses_query.
+
 (* ------------------------------------------------------------------ query -> options *)
 Theorem C16_query_options : forall s buflen opts,
   uri_spec_query s = Some opts -> uri_query_need s <= buflen ->
@@ -137,15 +159,15 @@ Proof. exact uri_get_query_injective. Qed.
 Print Assumptions C16_rebuild_injective_query.
 
 (* the string feeds back to the same options (for lists without the "." / ".." values that
-   RFC 7252 5.10.1 forbids in Uri-Path) *)
+   RFC 7252 5.10.1 forbids in Uri-Path; uri_fits: values an option can carry at all, <= 65804) *)
 Theorem C16_rebuild_feeds_back_path : forall l buflen,
-  Forall wfb l -> uri_no_dots l -> uri_path_need (uri_get_path l) <= buflen ->
+  Forall wfb l -> uri_fits l = true -> uri_no_dots l -> uri_path_need (uri_get_path l) <= buflen ->
   uri_path_to_opts (uri_get_path l) buflen = UOk (uri_encs (uri_norm l)).
 Proof. exact uri_get_path_feeds_back. Qed.
 Print Assumptions C16_rebuild_feeds_back_path.
 
 Theorem C16_rebuild_feeds_back_query : forall l buflen,
-  Forall wfb l -> uri_query_need (uri_get_query l) <= buflen ->
+  Forall wfb l -> uri_fits l = true -> uri_query_need (uri_get_query l) <= buflen ->
   uri_query_to_opts (uri_get_query l) buflen = UOk (uri_encs (uri_norm l)).
 Proof. exact uri_get_query_feeds_back. Qed.
 Print Assumptions C16_rebuild_feeds_back_query.
